@@ -1,7 +1,7 @@
 ------------------------------- MODULE Bytes -------------------------------
 (* Byte strings: keys of an FST are finite sequences over 0..255, ordered  *)
 (* lexicographically (the order of Rust's `[u8]` comparison).              *)
-EXTENDS Naturals, Sequences, FiniteSets
+EXTENDS Integers, Sequences, FiniteSets
 
 Byte == 0..255
 
